@@ -406,7 +406,7 @@ func (vc *FnVC) callContractWith(in *ssa.Call, callee *ssa.Function, fc *FuncCon
 			vc.applyModItem(m, in.Pos())
 		}
 	}
-	if fc.NoFrame {
+	if fc.NoFrame || fc.OwnWrites {
 		// the callee declares no frame: everything reachable from its arguments may change
 		for _, a := range in.Call.Args {
 			vc.havocArg(a, in.Pos(), cname)
